@@ -40,14 +40,15 @@ def make_env(desc):
     """build Scenario AND environment from a descriptor (this is the `construct` operation)"""
     nasim = import_nasim()
     kind = desc["kind"]
+    fa = desc.get("flat_actions", True)
     if kind == "shipped":
-        return nasim.load(shipped_path(desc["name"]), name=desc.get("as_name", desc["name"]))
+        return nasim.load(shipped_path(desc["name"]), name=desc.get("as_name", desc["name"]), flat_actions=fa)
     if kind == "yaml":
         fd, path = tempfile.mkstemp(suffix=".yaml", prefix="nasimverif_")
         try:
             with os.fdopen(fd, "w") as f:
                 f.write(desc["text"])
-            return nasim.load(path, name=desc.get("as_name", "y"))
+            return nasim.load(path, name=desc.get("as_name", "y"), flat_actions=fa)
         finally:
             os.unlink(path)
     if kind == "dict":
@@ -55,7 +56,7 @@ def make_env(desc):
         sp = spec_from_json(desc["spec"])
         if desc.get("as_name"):
             sp["name"] = desc["as_name"]
-        return NASimEnv(to_scenario(sp))
+        return NASimEnv(to_scenario(sp), flat_actions=fa)
     if kind == "benchmark":
         if desc.get("np_seed_before") is not None:
             np.random.seed(desc["np_seed_before"])
@@ -102,7 +103,8 @@ class Slot:
             if op == "construct":
                 self.env = make_env(self.desc)
                 e = self.env
-                out = ["construct", _canon(e.current_state.tensor), int(e.action_space.n),
+                out = ["construct", _canon(e.current_state.tensor),
+                       int(e.action_space.n) if e.flat_actions else [int(x) for x in e.action_space.nvec],
                        list(e.observation_space.shape), _canon(e.last_obs.tensor)]
             elif op == "reset":
                 o, info = self.env.reset()
@@ -110,16 +112,17 @@ class Slot:
             elif op.startswith("step"):
                 k = int(op[4:])
                 a = self.actions[k]
-                act = self.env.action_space.get_action(int(a))
+                a = [int(x) for x in a] if isinstance(a, (list, tuple)) else int(a)
+                act = self.env.action_space.get_action(a)
                 sm.arm(draw_values(float(act.prob))[self.sides[k]])
-                o, r, d, t, info = self.env.step(int(a))
+                o, r, d, t, info = self.env.step(a)
                 out = ["step", _canon(np.asarray(o)), float(r), bool(d), bool(t), _canon(info),
                        _canon(self.env.current_state.tensor), int(self.env.steps)]
             else:
                 e = self.env
                 host_obs, aux = e.last_obs.get_readable()
                 out = ["read", _canon(e.current_state.get_readable()), _canon(host_obs), _canon(aux),
-                       _canon(np.asarray(e.get_action_mask())), bool(e.goal_reached()),
+                       _canon(np.asarray(e.get_action_mask())) if e.flat_actions else None, bool(e.goal_reached()),
                        int(e.get_minimum_hops()), float(e.get_score_upper_bound()),
                        _canon(e.current_state.tensor), _canon(e.last_obs.tensor)]
         except Exception as ex:       # an exception is part of the observable trace
@@ -192,6 +195,9 @@ def pairs(tier):
         ("yaml_vs_dict_same_spec", _yaml_desc(s1), {"kind": "dict", "spec": spec_to_json(s1)}),
         ("dict_vs_yaml_other_rules", {"kind": "dict", "spec": spec_to_json(s2)}, _yaml_desc(s1)),
         ("same_name_other_topology", _yaml_desc(s4, "iso-a"), _yaml_desc(s3, "iso-a")),
+        ("parameterised_actions_yaml_vs_dict_other_definitions", {**_yaml_desc(s1), "flat_actions": False},
+         {"kind": "dict", "spec": spec_to_json(s2), "flat_actions": False}),
+        ("parameterised_vs_flat_other_topology", {**_yaml_desc(s4, "iso-a"), "flat_actions": False}, _yaml_desc(s2)),
         ("generated_seed1_vs_seed2", {"kind": "benchmark", "name": "tiny-gen", "seed": 1},
          {"kind": "benchmark", "name": "tiny-gen", "seed": 2}),
         ("seeded_then_unseeded_benchmark", {"kind": "benchmark", "name": "small-gen-rgoal", "seed": 3},
@@ -212,8 +218,7 @@ def pairs(tier):
 
 def action_triples(desc, tier):
     """state-changing action triples taken from the environment's own BFS tree (computed on a throw-away env)"""
-    from .explore import Ctx, explore
-    env = make_env(desc)
+    env = make_env({**desc, "flat_actions": True})
     sc = env.scenario
     # minimal exploration on the real env: depth-3 BFS with draws below
     sm = seam()
@@ -247,7 +252,13 @@ def action_triples(desc, tier):
     if not triples:
         base = (frontier[0][1] + [0, 1, 2])[:3]
         triples = [base]
-    return [[int(x) for x in t] for t in triples]
+    triples = [[int(x) for x in t] for t in triples]
+    if not desc.get("flat_actions", True):
+        from .chk_modes import param_vector_for
+        sp = {"os": list(sc.os), "services": list(sc.services), "processes": list(sc.processes)}
+        flat = env.action_space.actions
+        triples = [[param_vector_for(sp, flat[i]) for i in t] for t in triples]
+    return triples
 
 
 # ------------------------------------------------------------------------------------------- workers
